@@ -33,6 +33,9 @@ CHECKS["C08"] = dict(technique="differential runtime monitor: match bitmaps over
 CHECKS["C06"] = dict(technique="batched differential runtime monitor (bash reference) over a systematic operator x value x operand grid; definitional shortest/longest-match oracle with a reference matcher",
    text="About 24k generated ${...} forms - length, substring over a full offset x length grid (negative/zero/in-range/out-of-range/arithmetic), # ## % %% over 32 patterns, the four replace forms, case modification with patterns, @Q U L u E A a, defaults/alternates/errors over set/null/unset/declared states and operand quoting, indirection, prefix-name listing, positional/indexed/sparse/empty/associative lists, several expansions inside one word, with and without nounset - each passed quoted and unquoted to an external argv dumper by the real brush binary and compared with bash (values, field counts, status). Prefix/suffix removal results are additionally checked against the definition (shortest/longest matching, empty match included).",
    note="bash 5.2.15 under C.utf8; open findings fence sparse-array slicing, alternates on empty lists, @a on lists, @u, @A of unset, & in replacements, indirect expansion of unset (C06-F1..F6, C03-N3)", ref="5 C06")
+CHECKS["C05"] = dict(technique="batched differential runtime monitor (bash reference): grammar of word pieces x variable environments x IFS modes in identical directory trees; external argv dumper",
+   text="Words of 1-4 pieces (literals with glob characters, quotes, $v, $@/$*, arrays quoted and not, $( ), backquotes, $(( )), braces, tildes, multi-component globs, defaults/alternates with nested words) are expanded by the real brush and by bash under IFS in {unset, default, space, newline, empty}, v over 14 values (unset, empty, blank-padded, multi-field, glob-like, brace-like), positional/array lists incl. empty elements, in a tree with dot-files, dot-directories and names with spaces; the argument list received by an external process and $# after `set --` must agree.",
+   note="bash 5.2.15 reference; open findings fenced: brace expansion under IFS=/newline, tilde x brace, empty brace alternatives, \"$*\" under empty IFS (known-failure test in the repo), ${@:-w} on lists of several empty strings (C05-F1..F6)", ref="5 C05")
 NA = {}
 
 def main():
